@@ -444,6 +444,9 @@ pub fn invariants<K: KeyT, const N: usize>(s: &Set<K, N>, cx: &mut Ctx, extra: P
     cx.check(pm | C03, s.capacity() == N, || format!("capacity() is {} for N = {N}", s.capacity()));
     cx.check(pm | C03, len <= N, || format!("len() {len} exceeds capacity {N}"));
     for k in &items {
+        if let Some(found) = k.alias_probe(|q| s.contains(q) || s.get(q).is_some()) {
+            cx.check(C07, !found, || format!("a lookup through a borrowed value that shares the address of the stored element {} but is not equal to it finds an element", k.kd()));
+        }
         cx.check(pm, s.contains::<K>(k), || format!("contains({}) is false for a yielded element", k.kd()));
         let g = s.get::<K>(k).map(|x| x as *const K);
         cx.check(pm, g == Some(*k as *const K), || format!("get({}) does not return the yielded element", k.kd()));
